@@ -495,8 +495,14 @@ E(e, env, m) ==
                            1, env, m, <<>>) IN
          IF ~Ok(kv.m) THEN R(kv.m, NoneV)
          ELSE LET ks == [i \in 1..Len(e.keys) |-> kv.vs[2 * i - 1]]
-                  vs == [i \in 1..Len(e.keys) |-> kv.vs[2 * i]] IN
-              IF \E i \in 1..Len(ks) : ~Hashable(ks[i], kv.m.heap) THEN R(Raise(kv.m, "not_hashable", e.line), NoneV)
+                  vs == [i \in 1..Len(e.keys) |-> kv.vs[2 * i]]
+                  \* entries are inserted in order: the first key that cannot be hashed, or that an earlier
+                  \* entry already has (a dict DISPLAY with a repeated key is an error in this dialect), fails
+                  badk == {i \in 1..Len(ks) : \/ ~Hashable(ks[i], kv.m.heap)
+                                              \/ \E j \in 1..(i - 1) : Hashable(ks[j], kv.m.heap) /\ Eq(ks[j], ks[i], kv.m.heap)}
+                  first == IF badk = {} THEN 0 ELSE CHOOSE i \in badk : \A j \in badk : i <= j IN
+              IF first # 0 /\ ~Hashable(ks[first], kv.m.heap) THEN R(Raise(kv.m, "not_hashable", e.line), NoneV)
+              ELSE IF first # 0 THEN R(Raise(kv.m, "value", e.line), NoneV)
               ELSE LET d == DictFromPairs(ks, vs, 1, <<>>, <<>>, kv.m.heap) IN NewDict(kv.m, d.keys, d.vals))
     ELSE IF e.k = "not" THEN
         (LET x == E(e.e, env, m) IN IF Ok(x.m) THEN R(x.m, BoolV(~Truth(x.v, x.m.heap))) ELSE x)
